@@ -18,6 +18,13 @@ package keeper
 // sum of the weighted shares  floor(rem*rate_j/R)  of the first k payments
 //@ spec sumShare(ps: []types.Payment, rem: int, R: int, k: int): int = ite(k <= 0, 0, sumShare(ps, rem, R, k-1) + (rem * ps[k-1].Rate.Amount) / R)
 
+// sumRate depends only on the Rate cells (two-heap frame lemma; old(.) denotes the other heap)
+//@ lemma sumRateFrame(ps: []types.Payment, k: int)
+//@   induction k
+//@   requires forall i: int :: 0 <= i && i < k ==> ps[i].Rate.Amount == old(ps[i].Rate.Amount)
+//@   ensures sumRate(ps, k) == old(sumRate(ps, k))
+//@   trigger sumRate(ps, k), old(sumRate(ps, k))
+
 // ---- C02: settlement arithmetic -------------------------------------------
 
 //@ func accountSettleFullblocks
@@ -28,6 +35,7 @@ package keeper
 //@   ensures [share] forall i: int :: 0 <= i && i < len(payments) ==>
 //@              payments[i] == upd(old(payments[i]), Balance.Amount,
 //@                 old(payments[i].Balance.Amount) + old(payments[i].Rate.Amount) * min(account.Balance.Amount / blockRate.Amount, heightDelta))
+//@   ensures [mono] forall i: int :: 0 <= i && i < len(payments) ==> payments[i].Balance.Amount >= old(payments[i].Balance.Amount)
 //@   ensures [acct] result0 == upd(upd(account,
 //@                 Balance.Amount, account.Balance.Amount - blockRate.Amount * min(account.Balance.Amount / blockRate.Amount, heightDelta)),
 //@                 Transferred.Amount, account.Transferred.Amount + blockRate.Amount * min(account.Balance.Amount / blockRate.Amount, heightDelta))
@@ -37,6 +45,7 @@ package keeper
 //@   ensures [remlt] result2 ==> result3.Amount < blockRate.Amount
 //@   ensures [ident] result1 == payments
 //@   loop 1 invariant 0 <= iter && iter <= len(payments)
+//@   loop 1 invariant numFullBlocks >= 0
 //@   loop 1 invariant forall j: int :: 0 <= j && j < iter ==>
 //@              payments[j] == upd(old(payments[j]), Balance.Amount, old(payments[j].Balance.Amount) + old(payments[j].Rate.Amount) * numFullBlocks)
 //@   loop 1 invariant forall j: int :: iter <= j && j < len(payments) ==> payments[j] == old(payments[j])
@@ -51,6 +60,7 @@ package keeper
 //@                 old(payments[i].Balance.Amount) + (amountRemaining.Amount * old(payments[i].Rate.Amount)) / blockRate.Amount)
 //@   ensures [each] forall i: int :: 0 <= i && i < len(payments) ==>
 //@              (amountRemaining.Amount * old(payments[i].Rate.Amount)) / blockRate.Amount <= old(payments[i].Rate.Amount)
+//@   ensures [mono] forall i: int :: 0 <= i && i < len(payments) ==> payments[i].Balance.Amount >= old(payments[i].Balance.Amount)
 //@   ensures [acct] result0 == upd(upd(account,
 //@                 Balance.Amount, account.Balance.Amount - old(sumShare(payments, amountRemaining.Amount, blockRate.Amount, len(payments)))),
 //@                 Transferred.Amount, account.Transferred.Amount + old(sumShare(payments, amountRemaining.Amount, blockRate.Amount, len(payments))))
@@ -77,6 +87,7 @@ package keeper
 //@                 Balance.Amount, account.Balance.Amount - amountRemaining.Amount),
 //@                 Transferred.Amount, account.Transferred.Amount + amountRemaining.Amount)
 //@   ensures [zero] result2.Amount == 0 && result2.Denom == amountRemaining.Denom
+//@   ensures [mono] forall i: int :: 0 <= i && i < len(payments) ==> payments[i].Balance.Amount >= old(payments[i].Balance.Amount)
 //@   ensures [ident] result1 == payments
 //@   loop 1 invariant 0 <= iter && iter <= len(payments)
 //@   loop 1 invariant transferred == baseAmt * iter + min(iter, numOverflow)
@@ -85,7 +96,7 @@ package keeper
 //@                 old(payments[j].Balance.Amount) + baseAmt + ite(j < numOverflow, 1, 0))
 //@   loop 1 invariant forall j: int :: iter <= j && j < len(payments) ==> payments[j] == old(payments[j])
 
-//@ property C02 := accountSettleFullblocks#*, accountSettleDistributeWeighted#*, accountSettleDistributeEvenly#*
+//@ property C02 := lemma:sumRateFrame, accountSettleFullblocks#*, accountSettleDistributeWeighted#*, accountSettleDistributeEvenly#*
 
 // ---- store layout ----------------------------------------------------------
 
@@ -220,10 +231,17 @@ package keeper
 //@   loop 1 invariant cap(payments) > 0 ==> fresh(payments)
 
 //@ func (*keeper).accountOpenPayments
+//@   uses openCountMono, openCountStrict
 //@   modifies ghost It_all
-//@   requires keysMatch(KVhas[k.skey], KVval[k.skey], id)
-//@   ensures [src] forall m: int :: 0 <= m && m < len(result) ==> result[m].State == types.PaymentOpen && result[m].AccountID == id && storedAs(KVhas[k.skey], KVval[k.skey], result[m])
-//@   loop 1 invariant forall m: int :: 0 <= m && m < len(payments) ==> payments[m].State == types.PaymentOpen && payments[m].AccountID == id && storedAs(KVhas[k.skey], KVval[k.skey], payments[m])
+//@   requires wfAcct(KVhas[k.skey], KVval[k.skey], id)
+//@   ensures [src] forall m: int :: 0 <= m && m < len(result) ==> result[m].State == types.PaymentOpen && result[m].AccountID == id
+//@                && storedAs(KVhas[k.skey], KVval[k.skey], result[m]) && wfPay(result[m], acctOf(KVval[k.skey], id).Balance.Denom)
+//@                && 0 <= srcOf(KVhas[k.skey], id, result[m]) && srcOf(KVhas[k.skey], id, result[m]) < enumLen(KVhas[k.skey], apKey(id))
+//@   ensures [incr] forall m1: int, m2: int :: 0 <= m1 && m1 < m2 && m2 < len(result) ==> srcOf(KVhas[k.skey], id, result[m1]) < srcOf(KVhas[k.skey], id, result[m2])
+//@   loop 1 invariant forall m: int :: 0 <= m && m < len(payments) ==> payments[m].State == types.PaymentOpen && payments[m].AccountID == id
+//@                && storedAs(KVhas[k.skey], KVval[k.skey], payments[m]) && wfPay(payments[m], acctOf(KVval[k.skey], id).Balance.Denom)
+//@                && 0 <= srcOf(KVhas[k.skey], id, payments[m]) && srcOf(KVhas[k.skey], id, payments[m]) < iter
+//@   loop 1 invariant forall m1: int, m2: int :: 0 <= m1 && m1 < m2 && m2 < len(payments) ==> srcOf(KVhas[k.skey], id, payments[m1]) < srcOf(KVhas[k.skey], id, payments[m2])
 //@   ensures [len] len(result) == openCount(KVhas[k.skey], KVval[k.skey], id, enumLen(KVhas[k.skey], apKey(id)))
 //@   ensures [elems] forall i: int :: 0 <= i && i < enumLen(KVhas[k.skey], apKey(id)) && recAt(KVhas[k.skey], KVval[k.skey], id, i).State == types.PaymentOpen ==>
 //@               result[openCount(KVhas[k.skey], KVval[k.skey], id, i)] == recAt(KVhas[k.skey], KVval[k.skey], id, i)
@@ -235,4 +253,119 @@ package keeper
 //@   loop 1 invariant fresh(payments) && root(payments) != root(allPayments)
 //@   loop 1 invariant forall j: int :: 0 <= j && j < len(allPayments) ==> allPayments[j] == recAt(KVhas[k.skey], KVval[k.skey], id, j)
 
-//@ property C03 := (*keeper).paymentWithdraw#*, (*keeper).accountWithdraw#*, lemma:openCountMono, lemma:openCountStrict, (*keeper).accountPayments#*, (*keeper).accountOpenPayments#*, (*keeper).GetAccount#*, (*keeper).GetPayment#*, (*keeper).saveAccount#*, (*keeper).savePayment#*
+// ---- keeper-level views and invariants -------------------------------------
+//@ spec wfPay(p: types.Payment, denom: str): bool = p.Rate.Amount > 0 && p.Balance.Amount >= 0 && p.Withdrawn.Amount >= 0
+//@        && p.Rate.Denom == denom && p.Balance.Denom == denom && p.Withdrawn.Denom == denom
+// index, in the enumeration of id's payments, of the key of payment p
+//@ spec srcOf(has: map[str]bool, id: types.AccountID, p: types.Payment): int = enumIdx(has, apKey(id), pKey(p.AccountID, p.PaymentID))
+//@ spec escrowSKey(): iface
+//@ spec acctOf(val: map[str]str, id: types.AccountID): types.Account = decode(types.Account, val[aKey(id)])
+//@ spec payOf(val: map[str]str, id: types.AccountID, pid: str): types.Payment = decode(types.Payment, val[pKey(id, pid)])
+// a record that is no longer open
+//@ spec closedRec(key: str, v: str): bool = (keyKind(key) == 1 && decode(types.Account, v).State != types.AccountOpen) || (keyKind(key) == 2 && decode(types.Payment, v).State != types.PaymentOpen)
+// C03: closed / overdrawn records are never written again
+//@ spec opaque stable(has0: map[str]bool, val0: map[str]str, has1: map[str]bool, val1: map[str]str): bool =
+//@        forall key: str :: has0[key] && closedRec(key, val0[key]) ==> has1[key] && val1[key] == val0[key]
+// well-formedness of the records of one account (part of the representation invariant)
+//@ spec wfAcct(has: map[str]bool, val: map[str]str, id: types.AccountID): bool =
+//@        keysMatch(has, val, id)
+//@        && (has[aKey(id)] ==> acctOf(val, id).ID == id && acctOf(val, id).Balance.Amount >= 0 && acctOf(val, id).Transferred.Amount >= 0
+//@               && acctOf(val, id).Transferred.Denom == acctOf(val, id).Balance.Denom && validDenom(acctOf(val, id).Balance.Denom))
+//@        && (forall j: int :: 0 <= j && j < enumLen(has, apKey(id)) ==> wfPay(recAt(has, val, id, j), acctOf(val, id).Balance.Denom))
+
+//@ lemma stableTrans(h0: map[str]bool, v0: map[str]str, h1: map[str]bool, v1: map[str]str, h2: map[str]bool, v2: map[str]str)
+//@   requires stable(h0, v0, h1, v1) && stable(h1, v1, h2, v2)
+//@   ensures stable(h0, v0, h2, v2)
+//@   trigger stable(h0, v0, h1, v1), stable(h1, v1, h2, v2)
+//@ lemma stableRefl(h0: map[str]bool, v0: map[str]str)
+//@   ensures stable(h0, v0, h0, v0)
+//@   trigger stable(h0, v0, h0, v0)
+
+// hooks registered by the market module (assumed here; proved for the registered values under C05):
+// they never rewrite a non-open escrow record and they conserve escrowed funds
+//@ extern keeper.(AccountHook).functype(ctx, obj)
+//@   modifies ghost KVhas, ghost KVval, ghost G, ghost Mod, ghost Bank, ghost It_all
+//@   ensures stable(old(KVhas)[escrowSKey()], old(KVval)[escrowSKey()], KVhas[escrowSKey()], KVval[escrowSKey()])
+//@   ensures forall d: str :: Mod["escrow"][d] - G[escrowSKey()][d] == old(Mod)["escrow"][d] - old(G)[escrowSKey()][d]
+//@ extern keeper.(PaymentHook).functype(ctx, obj)
+//@   modifies ghost KVhas, ghost KVval, ghost G, ghost Mod, ghost Bank, ghost It_all
+//@   ensures stable(old(KVhas)[escrowSKey()], old(KVval)[escrowSKey()], KVhas[escrowSKey()], KVval[escrowSKey()])
+//@   ensures forall d: str :: Mod["escrow"][d] - G[escrowSKey()][d] == old(Mod)["escrow"][d] - old(G)[escrowSKey()][d]
+
+// ---- settlement ------------------------------------------------------------
+// key under which payment p is stored
+//@ spec keyOf(p: types.Payment): str = pKey(p.AccountID, p.PaymentID)
+
+//@ func (*keeper).doAccountSettle
+//@   uses sumRateFrame, stableTrans, stableRefl
+//@   requires k.skey == escrowSKey()
+//@   requires wfAcct(KVhas[k.skey], KVval[k.skey], id)
+//@   requires KVhas[k.skey][aKey(id)] ==> acctOf(KVval[k.skey], id).SettledAt <= height(ctx)
+//@   modifies ghost KVhas, ghost KVval, ghost G, ghost Mod, ghost Bank, ghost It_all
+//@   ensures [missing] !old(KVhas)[k.skey][aKey(id)] ==> result3 != nil
+//@   ensures [notopen] old(KVhas)[k.skey][aKey(id)] && acctOf(old(KVval)[k.skey], id).State != types.AccountOpen ==> result3 != nil
+//@   ensures [precheck] !old(KVhas)[k.skey][aKey(id)] || acctOf(old(KVval)[k.skey], id).State != types.AccountOpen ==>
+//@                KVhas == old(KVhas) && KVval == old(KVval) && G == old(G) && Mod == old(Mod) && Bank == old(Bank)
+//@   ensures [same] old(KVhas)[k.skey][aKey(id)] && acctOf(old(KVval)[k.skey], id).State == types.AccountOpen && height(ctx) == acctOf(old(KVval)[k.skey], id).SettledAt ==>
+//@                result3 == nil && !result2 && result0 == acctOf(old(KVval)[k.skey], id)
+//@                && KVhas == old(KVhas) && KVval == old(KVval) && G == old(G) && Mod == old(Mod) && Bank == old(Bank)
+//@   ensures [acct] result3 == nil ==> KVhas[k.skey][aKey(id)] && acctOf(KVval[k.skey], id) == result0
+//@   ensures [od] result3 == nil && result2 ==> result0.State == types.AccountOverdrawn && result0.Balance.Amount == 0
+//@   ensures [open] result3 == nil && !result2 ==> result0.State == types.AccountOpen && result0.SettledAt == height(ctx) && result0.Balance.Amount >= 0
+//@                && result0.ID == id && result0.Owner == acctOf(old(KVval)[k.skey], id).Owner && result0.Balance.Denom == acctOf(old(KVval)[k.skey], id).Balance.Denom
+//@   ensures [pays] result3 == nil && !result2 ==> (forall m: int :: 0 <= m && m < len(result1) ==>
+//@                result1[m].State == types.PaymentOpen && result1[m].AccountID == id && storedAs(KVhas[k.skey], KVval[k.skey], result1[m])
+//@                && wfPay(result1[m], result0.Balance.Denom))
+//@   ensures [dom] result3 == nil && !result2 ==> KVhas == old(KVhas)
+//@   ensures [stable] stable(old(KVhas)[k.skey], old(KVval)[k.skey], KVhas[k.skey], KVval[k.skey])
+//@   loop 1 invariant 0 <= iter && iter <= len(payments) && blockRate.Amount >= 0 && (iter > 0 ==> blockRate.Amount > 0)
+//@   loop 1 invariant blockRate.Amount == sumRate(payments, iter) && blockRate.Denom == account.Balance.Denom
+//@   loop 2 invariant 0 <= iter && iter <= len(payments) && KVhas == old(KVhas)
+//@   loop 2 invariant stable(old(KVhas)[k.skey], old(KVval)[k.skey], KVhas[k.skey], KVval[k.skey])
+//@   loop 2 invariant KVval[k.skey][aKey(id)] == encode(account)
+//@   loop 2 invariant forall m: int :: 0 <= m && m < iter ==> KVval[k.skey][keyOf(payments[m])] == encode(payments[m])
+//@   loop 3 invariant 0 <= iter && iter <= len(payments) && KVhas[k.skey][aKey(id)]
+//@   loop 3 invariant stable(old(KVhas)[k.skey], old(KVval)[k.skey], KVhas[k.skey], KVval[k.skey])
+//@   loop 3 invariant KVval[k.skey][aKey(id)] == encode(account)
+//@   loop 3 invariant forall m: int :: iter <= m && m < len(payments) ==> payments[m].Balance.Amount >= 0
+//@   loop 4 invariant KVhas[k.skey][aKey(id)] && KVval[k.skey][aKey(id)] == encode(account)
+//@   loop 4 invariant stable(old(KVhas)[k.skey], old(KVval)[k.skey], KVhas[k.skey], KVval[k.skey])
+//@   loop 5 invariant KVhas[k.skey][aKey(id)] && KVval[k.skey][aKey(id)] == encode(account)
+//@   loop 5 invariant stable(old(KVhas)[k.skey], old(KVval)[k.skey], KVhas[k.skey], KVval[k.skey])
+//@   loop 6 invariant KVhas[k.skey][aKey(id)] && KVval[k.skey][aKey(id)] == encode(account)
+//@   loop 6 invariant stable(old(KVhas)[k.skey], old(KVval)[k.skey], KVhas[k.skey], KVval[k.skey])
+
+//@ func (*keeper).AccountCreate
+//@   requires k.skey == escrowSKey() && validDenom(deposit.Denom)
+//@   modifies ghost KVhas, ghost KVval, ghost G, ghost Mod, ghost Bank
+//@   ensures [dup] old(KVhas)[k.skey][aKey(id)] ==> result != nil
+//@   ensures [fail] result != nil ==> KVhas == old(KVhas) && KVval == old(KVval) && G == old(G) && Mod == old(Mod) && Bank == old(Bank)
+//@   ensures [created] result == nil ==> !old(KVhas)[k.skey][aKey(id)]
+//@                && KVhas == old(KVhas)[k.skey := old(KVhas)[k.skey][aKey(id) := true]]
+//@                && KVval[k.skey] == old(KVval)[k.skey][aKey(id) := KVval[k.skey][aKey(id)]]
+//@   ensures [rec] result == nil ==> acctOf(KVval[k.skey], id).ID == id && acctOf(KVval[k.skey], id).Owner == bech32(owner)
+//@                && acctOf(KVval[k.skey], id).State == types.AccountOpen && acctOf(KVval[k.skey], id).Balance == deposit
+//@                && acctOf(KVval[k.skey], id).Transferred.Amount == 0 && acctOf(KVval[k.skey], id).Transferred.Denom == deposit.Denom
+//@                && acctOf(KVval[k.skey], id).SettledAt == height(ctx)
+//@   ensures [bank] result == nil && deposit.Amount > 0 ==>
+//@                   Mod == old(Mod)["escrow" := old(Mod)["escrow"][deposit.Denom := old(Mod)["escrow"][deposit.Denom] + deposit.Amount]]
+//@                && Bank == old(Bank)[owner := old(Bank)[owner][deposit.Denom := old(Bank)[owner][deposit.Denom] - deposit.Amount]]
+//@   ensures [conserve] forall d: str :: Mod["escrow"][d] - G[k.skey][d] == old(Mod)["escrow"][d] - old(G)[k.skey][d]
+//@   ensures [stable] stable(old(KVhas)[k.skey], old(KVval)[k.skey], KVhas[k.skey], KVval[k.skey])
+
+//@ func (*keeper).AccountDeposit
+//@   requires k.skey == escrowSKey()
+//@   requires KVhas[k.skey][aKey(id)] ==> acctOf(KVval[k.skey], id).ID == id
+//@   modifies ghost KVhas, ghost KVval, ghost G, ghost Mod, ghost Bank
+//@   ensures [missing] !old(KVhas)[k.skey][aKey(id)] ==> result != nil
+//@   ensures [notopen] old(KVhas)[k.skey][aKey(id)] && acctOf(old(KVval)[k.skey], id).State != types.AccountOpen ==> result != nil
+//@   ensures [fail] result != nil ==> KVhas == old(KVhas) && KVval == old(KVval) && G == old(G) && Mod == old(Mod) && Bank == old(Bank)
+//@   ensures [credited] result == nil ==> KVhas == old(KVhas)
+//@                && KVval == old(KVval)[k.skey := old(KVval)[k.skey][aKey(id) := encode(upd(acctOf(old(KVval)[k.skey], id), Balance.Amount, acctOf(old(KVval)[k.skey], id).Balance.Amount + amount.Amount))]]
+//@   ensures [bank] result == nil && amount.Amount > 0 ==>
+//@                   Mod == old(Mod)["escrow" := old(Mod)["escrow"][amount.Denom := old(Mod)["escrow"][amount.Denom] + amount.Amount]]
+//@                && Bank == old(Bank)[unbech32(acctOf(old(KVval)[k.skey], id).Owner) := old(Bank)[unbech32(acctOf(old(KVval)[k.skey], id).Owner)][amount.Denom := old(Bank)[unbech32(acctOf(old(KVval)[k.skey], id).Owner)][amount.Denom] - amount.Amount]]
+//@   ensures [conserve] forall d: str :: Mod["escrow"][d] - G[k.skey][d] == old(Mod)["escrow"][d] - old(G)[k.skey][d]
+//@   ensures [stable] stable(old(KVhas)[k.skey], old(KVval)[k.skey], KVhas[k.skey], KVval[k.skey])
+
+//@ property C03 := lemma:sumRateFrame, lemma:stableTrans, lemma:stableRefl, (*keeper).doAccountSettle#*, (*keeper).AccountCreate#*, (*keeper).AccountDeposit#*, (*keeper).paymentWithdraw#*, (*keeper).accountWithdraw#*, lemma:openCountMono, lemma:openCountStrict, (*keeper).accountPayments#*, (*keeper).accountOpenPayments#*, (*keeper).GetAccount#*, (*keeper).GetPayment#*, (*keeper).saveAccount#*, (*keeper).savePayment#*
